@@ -1685,6 +1685,7 @@ func c16wCompareTie(r *Result, p *C16WP, real *c16wOut, raw json.RawMessage) {
 		r.Violate(Violation{Kind: "correspondence", Suite: "wide-tie", Input: p, Observed: obs, Expected: exp, Note: note})
 	}
 	r.Case("wide-tie", canon(p), p.nontrivial())
+	r.CorrCompared++
 	if err := json.Unmarshal(raw, &lo); err != nil {
 		bad("lean answer not understood: "+string(raw), nil, nil)
 		return
